@@ -76,6 +76,26 @@ theorem rich_draw_rows (lb : Nat → Nat → Bool) (maxW maxH : UInt16) (cells :
       cases ls[y]? <;> rfl
     rw [this]; rfl
 
+/-- The same with the scanner's result made explicit: for **every** text narrower than 2^16 columns
+in total, every `Max` and every break function, `RichText.Draw` returns a surface showing exactly
+the lines the scanner emits, one per row. -/
+theorem rich_draw_exactly_the_lines (lb : Nat → Nat → Bool) (maxW maxH : UInt16) (cells : List Cell)
+    (hw : sumW cells < 65536) :
+    ∃ ls s, richLines lb maxW.toNat cells = .ok ls ∧ richDraw lb maxW maxH cells = .ok s ∧
+      s.h.toNat = min ls.length maxH.toNat ∧
+      s.buf.length = s.h.toNat * s.w.toNat ∧
+      ∀ x y, x < s.w.toNat → y < s.h.toNat →
+        cellAt s x y = over ((ls.getD y []).map toWin) 0 (fun _ => some default) x := by
+  obtain ⟨ls, hls, _⟩ := VaxisModel.Lemmas.Wrap.scanAll_ok (Wrap.richOracle lb) () maxW.toNat
+    (VaxisModel.Lemmas.Wrap.richOracle_ok lb) (cells.length + 1) cells () (Nat.lt_succ_self _)
+  have hls' : richLines lb maxW.toNat cells = .ok ls := hls
+  have hlw : ∀ l ∈ ls, sumW l < 65536 := by
+    intro l hl
+    have := scanAll_sumW (Wrap.richOracle lb) () maxW.toNat _ cells () ls hls l hl
+    omega
+  obtain ⟨s, h1, h2, _, h4, h5⟩ := rich_draw_rows lb maxW maxH cells ls hls' hlw
+  exact ⟨ls, s, hls', h1, h2, h4, h5⟩
+
 /-- **`Text.Draw` (soft wrap)**: the same, every cell in the widget's style, the surface filled with
 that style (`s.Fill(t.Style)`), a tab of the line shown as `ctx.Characters` expands it (`expand`). -/
 theorem text_draw_rows {σ : Type} (seg : σ → List Cell → Nat × Bool × σ) (st0 : σ)
